@@ -23,7 +23,7 @@ RULE = ("scenario families: A = hive dataset {unpartitioned, partitioned on 1 co
         "column} x 2 new row groups; Z = append to a dataset of 0 row groups (unpartitioned) x 1 / 2 / 4 new row groups; "
         "S = ParquetFile.write_row_groups through an fsspec-style environment (open_with = the bound open of a local "
         "filesystem subclass, whose rename / mv / rm are fault points as well) x options {none, sort_key, sort_key + "
-        "sort_pnames} x {unpartitioned, 1 partition column} x 1 / 2 new row groups on 3 existing ones; every scenario is "
+        "sort_pnames} x {unpartitioned, 1 partition column} x 1 / 2 new row groups on 3 existing ones; H = the append under faults is the second write_row_groups of one handle whose first one succeeded x {unpartitioned, 1, 2 partition columns}; every scenario is "
         "split into cells by k modulo the number of new row groups; fault points = every "
         "write-side call (mkdirs, open for writing, write, close, rename) before the first call that opens _metadata for "
         "writing, and that opening call itself (it fails before it truncates), each with variants {OSError, torn write (first half written, then OSError), crash (process "
@@ -78,6 +78,12 @@ def points(tier):
             for newrgs in ((1, 2, 4) if thorough else (1, 2)):
                 for opt in ("none", "sort_key", "sort_pnames"):
                     add(newrgs, parts=parts, existing=existing, newrgs=newrgs, second=False, opt=opt)
+    # family H: the append under faults is the SECOND write_row_groups of one ParquetFile handle (the first one,
+    # through the same handle, succeeded): whatever the handle remembers from its first append is in play
+    for parts in (0, 1, 2):
+        for existing in ((1, 3) if thorough else (1,)):
+            for newrgs in ((1, 2, 4) if thorough else (2,)):
+                add(newrgs, parts=parts, existing=existing, newrgs=newrgs, second=False, opt="handle2")
     return pts
 
 
@@ -301,6 +307,14 @@ def run(p):
     if second:
         fastparquet.write(master, frame(500, 4, parts), file_scheme="hive", partition_on=pcols, append=True,
                           row_group_offsets=[0, 2])
+    copy_src = master
+    if opt == "handle2":
+        # every execution starts from the state BEFORE the handle's first append and lets the handle make it; the
+        # "old" state the faulted second append must preserve is the state after that first append
+        copy_src = os.path.join(d, "master0")
+        os.rename(master, copy_src)
+        shutil.copytree(copy_src, master)
+        fastparquet.ParquetFile(master).write_row_groups(frame(500, 4, parts), [0, 2])
     old = content(master)
     old_files = snapshot(master)
     old_dirs = dirs_of(master)
@@ -309,13 +323,19 @@ def run(p):
     rgo = list(range(0, 2 * newrgs, 2))
     # number of part files the append has to create
     nfiles = sum((len(newdf.iloc[a:a + 2].groupby(pcols if len(pcols) > 1 else pcols[0])) if pcols else 1) for a in rgo)
-    make_env = fs_env if opt else Env
+    make_env = fs_env if opt and opt != "handle2" else Env
     wrg_opts = {"sort_key": {"sort_key": _newest_first},
                 "sort_pnames": {"sort_key": _newest_first, "sort_pnames": True}}.get(opt, {})
 
     def do_append(path, env):
         ow, mk = env.callbacks()
-        if opt:
+        if opt == "handle2":
+            pf = fastparquet.ParquetFile(path, open_with=ow)
+            pf.write_row_groups(frame(500, 4, parts), [0, 2])      # plain callbacks: neither counted nor failed
+            if snapshot(path) != old_files:
+                raise RuntimeError("harness: the handle's first append is not reproducible byte for byte")
+            pf.write_row_groups(newdf, rgo, open_with=ow, mkdirs=mk)
+        elif opt:
             pf = fastparquet.ParquetFile(path, open_with=ow)
             pf.write_row_groups(newdf, rgo, open_with=ow, mkdirs=mk, **wrg_opts)
         else:
@@ -324,7 +344,7 @@ def run(p):
 
     # counting run
     work = os.path.join(d, "work")
-    shutil.copytree(master, work)
+    shutil.copytree(copy_src, work)
     env = make_env()
     do_append(work, env)
     calls = list(env.calls)
@@ -462,7 +482,7 @@ def run(p):
     def retry_same_handle(what, k, kind, variant):
         """the append through one ParquetFile handle: write_row_groups fails at call k, then is called again"""
         shutil.rmtree(work, ignore_errors=True)
-        shutil.copytree(master, work)
+        shutil.copytree(copy_src, work)
         e3 = Env(k, variant)
         pf = fastparquet.ParquetFile(work, open_with=e3.open_with)
         try:
@@ -499,7 +519,7 @@ def run(p):
                 # deviation bound 2: a second failing call among those the library still issues after the first
                 # fault (clean-up closes, further part files), before any write to the summary files
                 shutil.rmtree(work, ignore_errors=True)
-                shutil.copytree(master, work)
+                shutil.copytree(copy_src, work)
                 e1 = make_env(k, "error")
                 try:
                     do_append(work, e1)
@@ -515,7 +535,7 @@ def run(p):
                     faults += 1
                     nontriv += 1
                     shutil.rmtree(work, ignore_errors=True)
-                    shutil.copytree(master, work)
+                    shutil.copytree(copy_src, work)
                     what = "parts=%d existing=%d new=%d second=%s: calls %d and %d (%s, then %s %s) fail" % (
                         parts, existing, newrgs, second, k, j, kind, seq[j][0], os.path.relpath(seq[j][1], work))
                     e2 = make_env({k, j}, "error")
@@ -533,7 +553,7 @@ def run(p):
             if k > 0:
                 nontriv += 1
             shutil.rmtree(work, ignore_errors=True)
-            shutil.copytree(master, work)
+            shutil.copytree(copy_src, work)
             what = "parts=%d existing=%d new=%d second=%s%s%s: call %d/%d (%s %s) %s" % (
                 parts, existing, newrgs, second, " history=%s" % hist if hist else "",
                 " write_row_groups(%s)" % opt if opt else "", k, limit, kind, os.path.relpath(cpath, work), variant)
